@@ -1,6 +1,7 @@
 package main
 
 import (
+	"bytes"
 	"fmt"
 	"math/rand"
 	"time"
@@ -31,34 +32,44 @@ import (
 // Every field is a small enumeration; the harness instantiates the configuration
 // with seeded contents.
 type Cfg struct {
-	Kind   string `json:"kind"`   // "ttf", "cff", "cid"
-	FDs    int    `json:"fds"`    // cid: number of private dictionaries
-	Cmap   string `json:"cmap"`   // "4", "12", "none"
-	Comp   int    `json:"comp"`   // ttf: composite nesting depth
-	Names  bool   `json:"names"`  // ttf: glyph names
-	N      int    `json:"n"`      // number of glyphs
-	Gsub   string `json:"gsub"`   // "none", "liga", "multi"
-	Gpos   string `json:"gpos"`   // "none", "pair", "multi"
-	Gdef   bool   `json:"gdef"`   //
-	Tags   string `json:"tags"`   // script list tags: "x" (with -x- extension), "noext", "ambig"
-	Reg    bool   `json:"reg"`    //
-	Bold   bool   `json:"bold"`   //
-	Ital   bool   `json:"ital"`   //
-	Obl    bool   `json:"obl"`    //
-	Serif  bool   `json:"serif"`  //
-	Script bool   `json:"script"` //
-	Weight int    `json:"weight"` //
-	Width  int    `json:"width"`  //
-	Angle  int    `json:"angle"`  // italic angle in units of 2^-20 degree
-	Fam    string `json:"fam"`    // "plain", "bold", "italic", "semibold"
-	Times  string `json:"times"`  // "c", "m", "both"
-	Frac   bool   `json:"frac"`   // sub-precision parts: nanoseconds, time zone, quarter units, fractional CFF widths
-	VerHi  int    `json:"ver_hi"` //
-	VerLo  int    `json:"ver_lo"` //
-	Strs   string `json:"strs"`   // "ascii", "latin1", "bmp", "astral", "empty"
-	Upm    int    `json:"upm"`    //
-	Metric string `json:"metric"` // "normal", "extreme"
-	Perm   int    `json:"perm"`   //
+	Kind    string `json:"kind"`    // "ttf", "cff", "cid"
+	FDs     int    `json:"fds"`     // cid: number of private dictionaries
+	Cmap    string `json:"cmap"`    // "4", "12", "none"
+	Comp    int    `json:"comp"`    // ttf: composite nesting depth
+	Names   bool   `json:"names"`   // ttf: glyph names
+	N       int    `json:"n"`       // number of glyphs
+	Gsub    string `json:"gsub"`    // "none", "liga", "multi"
+	Gpos    string `json:"gpos"`    // "none", "pair", "multi"
+	Gdef    bool   `json:"gdef"`    //
+	Tags    string `json:"tags"`    // script list tags: "x" (with -x- extension), "noext", "ambig"
+	Reg     bool   `json:"reg"`     //
+	Bold    bool   `json:"bold"`    //
+	Ital    bool   `json:"ital"`    //
+	Obl     bool   `json:"obl"`     //
+	Serif   bool   `json:"serif"`   //
+	Script  bool   `json:"script"`  //
+	Weight  int    `json:"weight"`  //
+	Width   int    `json:"width"`   //
+	Angle   int    `json:"angle"`   // italic angle in units of 2^-20 degree
+	Fam     string `json:"fam"`     // "plain", "bold", "italic", "semibold"
+	Times   string `json:"times"`   // "c", "m", "both"
+	Frac    bool   `json:"frac"`    // sub-precision parts: nanoseconds, time zone, quarter units, fractional CFF widths
+	VerHi   int    `json:"ver_hi"`  //
+	VerLo   int    `json:"ver_lo"`  //
+	Strs    string `json:"strs"`    // "ascii", "latin1", "bmp", "astral", "empty"
+	Upm     int    `json:"upm"`     //
+	Scripts string `json:"scripts"` // script lists: "simple", "multi" (several scripts, 0..5 explicit language systems each, shared feature tags)
+	THi     int    `json:"t_hi"`    // instant of the creation time: Unix seconds = t_hi * 2^24 + t_lo
+	TLo     int    `json:"t_lo"`    //
+	Asc     int    `json:"asc"`     //
+	Desc    int    `json:"desc"`    //
+	Gap     int    `json:"gap"`     //
+	Cap     int    `json:"cap"`     //
+	XH      int    `json:"xh"`      //
+	Ulp     int    `json:"ulp"`     // underline position, quarter units
+	Ult     int    `json:"ult"`     // underline thickness, quarter units
+	Vary    string `json:"vary"`    // "onefactor" generation: the field taken through its domain (informative)
+	Perm    int    `json:"perm"`    //
 }
 
 var families = map[string]string{
@@ -98,9 +109,64 @@ func scriptTags(kind string) []language.Tag {
 	}
 }
 
-func scriptList(kind string, nFeat int) gtab.ScriptListInfo {
+// richTags: several scripts with 0..5 explicit language systems each, with or without a default
+// language system.  Candidates are written with the private-use extension the reader generates;
+// normalTag maps each to the exact form the reader returns, so that the list is in normal form.
+var richTags = []string{
+	"und-Zzzz-x-dflt",
+	"und-Latn-x-latn", "de-Latn-x-latn-deu", "tr-Latn-x-latn-trk", "ro-Latn-x-latn-rom", "nl-Latn-x-latn-nld", "pl-Latn-x-latn-plk",
+	"und-Cyrl-x-cyrl", "ru-Cyrl-x-cyrl-rus", "sr-Cyrl-x-cyrl-srb",
+	"el-Grek-x-grek-ell", // no default language system for this script
+	"ar-Arab-x-arab-ara", "ur-Arab-x-arab-urd", "fa-Arab-x-arab-far", "und-Arab-x-arab",
+}
+
+var normalCache = map[string]language.Tag{}
+
+// normalTag returns the tag the library's reader produces for the script/language the candidate encodes to.
+func normalTag(cand string) language.Tag {
+	if t, ok := normalCache[cand]; ok {
+		return t
+	}
+	t := language.MustParse(cand)
+	info := &gtab.Info{
+		ScriptList:  gtab.ScriptListInfo{t: {Required: 0xFFFF, Optional: []gtab.FeatureIndex{0}}},
+		FeatureList: gtab.FeatureListInfo{{Tag: "test", Lookups: []gtab.LookupIndex{0}}},
+		LookupList: gtab.LookupList{{Meta: &gtab.LookupMetaInfo{LookupType: 1},
+			Subtables: []gtab.Subtable{&gtab.Gsub1_1{Cov: coverage.Set{1: true}, Delta: 1}}}},
+	}
+	back, err := gtab.Read(bytes.NewReader(info.Encode()), gtab.TypeGsub)
+	if err != nil || len(back.ScriptList) != 1 {
+		vio.Fatal(fmt.Sprintf("cannot normalise script-list tag %s: %v", cand, err))
+	}
+	for k := range back.ScriptList {
+		t = k
+	}
+	normalCache[cand] = t
+	return t
+}
+
+func scriptList(c Cfg, nFeat int) gtab.ScriptListInfo {
 	res := gtab.ScriptListInfo{}
-	for i, t := range scriptTags(kind) {
+	if c.Scripts == "multi" && c.Tags == "x" {
+		for i, cand := range richTags {
+			var opt []gtab.FeatureIndex
+			for f := 0; f < nFeat; f++ {
+				if (f+i)%3 != 1 {
+					opt = append(opt, gtab.FeatureIndex(f))
+				}
+			}
+			req := gtab.FeatureIndex(0xFFFF)
+			if i%4 == 2 {
+				req = gtab.FeatureIndex(i % nFeat) // a required feature
+			}
+			if i%5 == 4 {
+				opt = nil // a language system with a required feature only, or none at all
+			}
+			res[normalTag(cand)] = &gtab.Features{Required: req, Optional: opt}
+		}
+		return res
+	}
+	for i, t := range scriptTags(c.Tags) {
 		var opt []gtab.FeatureIndex
 		for f := 0; f < nFeat; f++ {
 			if (f+i)%3 != 2 {
@@ -221,7 +287,17 @@ func makeGsub(c Cfg, total int) *gtab.Info {
 			&gtab.Feature{Tag: "calt", Lookups: []gtab.LookupIndex{5, 6}},
 		)
 	}
-	info.ScriptList = scriptList(c.Tags, len(info.FeatureList))
+	if c.Scripts == "multi" {
+		// several features share a tag; lookups are referenced by several features
+		n := gtab.LookupIndex(len(info.LookupList))
+		info.FeatureList = append(info.FeatureList,
+			&gtab.Feature{Tag: info.FeatureList[0].Tag, Lookups: []gtab.LookupIndex{n - 1}},
+			&gtab.Feature{Tag: info.FeatureList[0].Tag, Lookups: []gtab.LookupIndex{0, n - 1}},
+			&gtab.Feature{Tag: "locl", Lookups: []gtab.LookupIndex{0}},
+			&gtab.Feature{Tag: "locl", Lookups: nil},
+		)
+	}
+	info.ScriptList = scriptList(c, len(info.FeatureList))
 	return info
 }
 
@@ -274,7 +350,17 @@ func makeGpos(c Cfg, total int) *gtab.Info {
 			&gtab.Feature{Tag: "mark", Lookups: []gtab.LookupIndex{2}},
 		)
 	}
-	info.ScriptList = scriptList(c.Tags, len(info.FeatureList))
+	if c.Scripts == "multi" {
+		// several features share a tag; lookups are referenced by several features
+		n := gtab.LookupIndex(len(info.LookupList))
+		info.FeatureList = append(info.FeatureList,
+			&gtab.Feature{Tag: info.FeatureList[0].Tag, Lookups: []gtab.LookupIndex{n - 1}},
+			&gtab.Feature{Tag: info.FeatureList[0].Tag, Lookups: []gtab.LookupIndex{0, n - 1}},
+			&gtab.Feature{Tag: "locl", Lookups: []gtab.LookupIndex{0}},
+			&gtab.Feature{Tag: "locl", Lookups: nil},
+		)
+	}
+	info.ScriptList = scriptList(c, len(info.FeatureList))
 	return info
 }
 
@@ -341,12 +427,8 @@ func Build(c Cfg, id int) *sfnt.Font {
 		zone = time.FixedZone("verif", 5*3600+1800)
 		ns = 123456789 + 100000000*rng.Intn(8)
 	}
-	created := time.Date(1990+rng.Intn(40), time.Month(1+rng.Intn(12)), 1+rng.Intn(28), rng.Intn(24), rng.Intn(60), rng.Intn(60), ns, zone)
-	modified := created.Add(time.Duration(1+rng.Intn(1000000)) * time.Second)
-	if c.Metric == "extreme" {
-		created = time.Date(2040+rng.Intn(50), 2, 3, 4, 5, 6, ns, zone)  // beyond 2^31 seconds
-		modified = time.Date(1905+rng.Intn(60), 2, 3, 4, 5, 6, ns, zone) // before the Unix epoch
-	}
+	created := time.Unix(int64(c.THi)<<24+int64(c.TLo), int64(ns)).In(zone)
+	modified := created.Add(time.Duration(86401+rng.Intn(1000)) * time.Second)
 	f.CreationTime, f.ModificationTime = time.Time{}, time.Time{}
 	if c.Times == "c" || c.Times == "both" {
 		f.CreationTime = created
@@ -368,23 +450,10 @@ func Build(c Cfg, id int) *sfnt.Font {
 	q := 1 / float64(c.Upm)
 	f.FontMatrix = matrix.Matrix{q, 0, 0, q, 0, 0}
 
-	if c.Metric == "extreme" {
-		f.Ascent, f.Descent, f.LineGap = 32767, -32768, 32767
-		f.CapHeight, f.XHeight = 32767, 1
-		f.UnderlinePosition, f.UnderlineThickness = -32768, 32767
-	} else {
-		f.Ascent = funit.Int16(700 + rng.Intn(300))
-		f.Descent = funit.Int16(-100 - rng.Intn(300))
-		f.LineGap = funit.Int16(rng.Intn(300))
-		f.CapHeight = funit.Int16(600 + rng.Intn(200))
-		f.XHeight = funit.Int16(400 + rng.Intn(200))
-		f.UnderlinePosition = funit.Float64(-50 - rng.Intn(200))
-		f.UnderlineThickness = funit.Float64(20 + rng.Intn(100))
-		if c.Frac {
-			f.UnderlinePosition += 0.25
-			f.UnderlineThickness += 0.75
-		}
-	}
+	f.Ascent, f.Descent, f.LineGap = funit.Int16(c.Asc), funit.Int16(c.Desc), funit.Int16(c.Gap)
+	f.CapHeight, f.XHeight = funit.Int16(c.Cap), funit.Int16(c.XH)
+	f.UnderlinePosition = funit.Float64(float64(c.Ulp) / 4)
+	f.UnderlineThickness = funit.Float64(float64(c.Ult) / 4)
 
 	f.Gsub = makeGsub(c, total)
 	f.Gpos = makeGpos(c, total)
